@@ -73,3 +73,399 @@ Qed.
 
 Lemma bk_wf_init : forall c, bk_wf c bk_init.
 Proof. intros c. unfold bk_wf, bk_init. cbn. repeat split; apply pow2_pos. Qed.
+
+(* ---------------------------------------------------------------------------------------------------------- *)
+(* (b) refinement *)
+Lemma held_fields : forall q i, held q i = true ->
+  i_value i = q_value q /\ i_wlen i = q_wlen q /\ i_sp i = q_sp q /\ i_start i = false.
+Proof.
+  intros q i H. unfold held in H. repeat (apply andb_true_iff in H as [H ?]).
+  repeat split; try (apply N.eqb_eq; assumption). destruct (i_start i); [discriminate | reflexivity].
+Qed.
+
+Lemma div4_lt : forall x pw, 2 <= pw -> x < 2 ^ pw -> x / 4 < 2 ^ (pw - 2).
+Proof.
+  intros x pw Hp Hx. replace pw with (2 + (pw - 2)) in Hx by lia. rewrite N.pow_add_r in Hx.
+  change (2 ^ 2) with 4 in Hx. pose proof (pow2_pos (pw - 2)). nia.
+Qed.
+
+Lemma size_ge_2 : forall x, 2 <= x -> 2 <= N.size x.
+Proof.
+  intros x H. destruct (N.le_gt_cases 2 (N.size x)) as [|Hlt]; [assumption|].
+  pose proof (N.size_gt x) as Hg. assert (N.size x = 0 \/ N.size x = 1) as [E|E] by lia; rewrite E in Hg; cbn in Hg; lia.
+Qed.
+
+Lemma firstn_skipn_cons : forall (d : list N) n p, (1 <= n)%nat -> (p < length d)%nat ->
+  firstn n (skipn p d) = nth p d 0 :: firstn (n - 1) (skipn (S p) d).
+Proof.
+  induction d as [|x d IH]; intros n p Hn Hp; [cbn in Hp; lia|].
+  destruct p as [|p].
+  - cbn [skipn nth]. destruct n as [|n]; [lia|]. cbn [firstn]. replace (S n - 1)%nat with n by lia. reflexivity.
+  - cbn [skipn nth]. apply IH; [exact Hn | cbn [length] in Hp; lia].
+Qed.
+
+Lemma firstn_skipn_last : forall (d : list N) n p,
+  match firstn n (skipn p d) with [] => true | _ :: _ => false end = (n =? 0)%nat || (length d <=? p)%nat.
+Proof.
+  intros d n p. destruct n as [|n]; [reflexivity|]. cbn [Nat.eqb orb].
+  destruct (Nat.leb_spec (length d) p) as [H|H].
+  - rewrite skipn_all2 by exact H. reflexivity.
+  - rewrite (firstn_skipn_cons d (S n) p) by lia. reflexivity.
+Qed.
+
+Lemma lookup_addr : forall aw h B p, aw <= 14 -> B + p / 4 < 2 ^ aw ->
+  trunc aw (N.shiftr (entry h (4 * B) + p) 2) = B + p / 4.
+Proof.
+  intros aw h B p Haw Hx. rewrite N.shiftr_div_pow2. change (2 ^ 2) with 4. unfold entry.
+  replace ((h * 65536 + 4 * B + p) / 4) with (h * 16384 + (B + p / 4)) by lia.
+  rewrite trunc_spec.
+  assert (E : 16384 = 2 ^ (14 - aw) * 2 ^ aw).
+  { rewrite <- N.pow_add_r. replace (14 - aw + aw) with 14 by lia. reflexivity. }
+  rewrite E, N.mul_assoc, N.add_comm, N.mod_add by (pose proof (pow2_pos aw); lia).
+  apply N.mod_small. exact Hx.
+Qed.
+
+Section Refine.
+  Variable c : dcoll.
+  Variable mps : N.
+  Hypothesis F : coll_facts c.
+  Hypothesis Hmps : 1 <= mps /\ mps < 65536.
+
+  Local Notation cfg := (block_cfg c mps).
+  Local Notation rom := (rom_of c).
+  Local Notation aw := (N.size (nlen (rom_of c) - 1)).
+  Local Notation pw := (N.size (max_desc_len c)).
+  Local Notation resp := (resp_of c mps).
+  Local Notation lat := (bk_lat c).
+
+  Definition lenq (q : dreq) : N := N.min mps (q_wlen q - q_sp q).
+  Definition q_bounded (q : dreq) : Prop := q_value q < 65536 /\ q_wlen q < 65536 /\ q_sp q < 2048.
+  Definition fd (q : dreq) : option desc := find_desc c (v_type (q_value q)) (v_index (q_value q)).
+
+  (* the descriptor d lies at word address B of the image *)
+  Definition data_at (B : N) (d : desc) : Prop :=
+    nlen d < 65536 /\ 4 * B < 65536 /\ nlen d <= max_desc_len c /\
+    forall k, k < nlen d -> B + k / 4 < nlen rom /\ byte_lane (rom_read rom (B + k / 4)) (k mod 4) = nth (N.to_nat k) d 0.
+
+  Definition sending (s : sstate) : option (list N * bool * dreq) :=
+    match s with
+    | SWait 0 q => match resp q with RData (b :: bs) => Some (b :: bs, true, q) | _ => None end
+    | SSend bs f q => Some (bs, f, q)
+    | _ => None
+    end.
+  Definition req_of_state (s : sstate) : option dreq :=
+    match s with SIdle => None | SWait _ q => Some q | SSend _ _ q => Some q end.
+  Definition wait_k (s : sstate) : option N := match s with SWait k _ => Some k | _ => None end.
+
+  Definition rel (st : bk_state) (s : sstate) : Prop :=
+    match s with
+    | SIdle => b_fsm st = B_IDLE
+    | _ => exists q, req_of_state s = Some q /\ q_bounded q /\ req_legal c q = true /\ b_len st = lenq q /\
+        match b_fsm st with
+        | B_IDLE => False
+        | B_START => b_sent st = 0 /\ wait_k s = Some (lat q - 1)
+        | B_LOOKUP_TYPE =>
+            b_sent st = 0 /\ (forall d, fd q = Some d -> b_pos st = q_sp q) /\
+            v_type (q_value q) <= max_type c /\ wait_k s = Some (lat q - 2) /\
+            b_rd st = rom_read rom (v_type (q_value q)) /\
+            (k_indirect cfg = true -> b_didx st = didx_val c (q_value q))
+        | B_LOOKUP_DESCRIPTOR =>
+            exists d B, fd q = Some d /\ wait_k s = Some 1 /\ b_sent st = 0 /\ b_pos st = q_sp q /\
+              b_rd st = entry (nlen d) (4 * B) /\ data_at B d
+        | B_SEND_ZLP => exists d, fd q = Some d /\ wait_k s = Some 0 /\ nlen d <= q_sp q
+        | B_SEND_DESCRIPTOR =>
+            exists d B bs f, fd q = Some d /\ sending s = Some (bs, f, q) /\ data_at B d /\
+              b_pos st = q_sp q + b_sent st /\ b_pos st < nlen d /\ b_sent st < lenq q /\
+              b_dlen st = nlen d /\ b_base st = B /\ b_rd st = rom_read rom (B + b_pos st / 4) /\
+              bs = firstn (N.to_nat (lenq q - b_sent st)) (skipn (N.to_nat (b_pos st)) d) /\
+              f = (b_sent st =? 0)
+        end
+    end.
+
+  (* ---- facts about the configuration ---- *)
+  Lemma rom_bounds : nlen rom <= 2 ^ aw /\ aw <= 14 /\ ntypes c <= nlen rom.
+  Proof. apply rom_aw_facts. exact F. Qed.
+
+  Lemma rom_read_trunc : forall a, a < nlen rom -> rom_read rom (trunc aw a) = rom_read rom a.
+  Proof. intros a H. destruct rom_bounds as (H1 & _). rewrite trunc_small by lia. reflexivity. Qed.
+
+  Lemma len_next_held : forall q i, q_bounded q -> req_legal c q = true ->
+    i_wlen i = q_wlen q -> i_sp i = q_sp q -> len_next cfg i = lenq q.
+  Proof.
+    intros q i (_ & Hw & _) Hl Ew Es. unfold req_legal in Hl. apply andb_true_iff in Hl as [Hl _].
+    unfold len_next, lenq. cbn [block_cfg k_mps]. rewrite Ew, Es.
+    destruct (N.ltb_spec (q_wlen q) (q_sp q)); [lia|].
+    destruct (N.leb_spec (q_wlen q - q_sp q) mps); [lia|]. rewrite trunc_small by (change (2 ^ 16) with 65536; lia). lia.
+  Qed.
+
+  Lemma req_of_bounded : forall i, q_bounded (req_of i).
+  Proof. intros i. unfold q_bounded, req_of. cbn. split; [apply i_value_lt | split; [apply i_wlen_lt | apply i_sp_lt]]. Qed.
+
+  Lemma lat_cases : forall q,
+    (max_type c < v_type (q_value q) /\ lat q = 1 /\ fd q = None) \/
+    (v_type (q_value q) <= max_type c /\ lat q = 2 /\ fd q = None) \/
+    (v_type (q_value q) <= max_type c /\ lat q = 4 /\ exists d, fd q = Some d).
+  Proof.
+    intros q. unfold bk_lat, fd. destruct (N.ltb_spec (max_type c) (v_type (q_value q))) as [H|H].
+    - left. split; [exact H|]. split; [reflexivity|]. unfold find_desc.
+      destruct (assoc (v_type (q_value q)) c) as [idxs|] eqn:Ea; [|reflexivity].
+      destruct (cf_group c F _ _ Ea) as (_ & _ & _ & _ & _ & Hle). lia.
+    - right. destruct (find_desc c (v_type (q_value q)) (v_index (q_value q))) as [d|].
+      + right. split; [exact H|]. split; [reflexivity|]. exists d. reflexivity.
+      + left. split; [exact H|]. split; reflexivity.
+  Qed.
+
+  Lemma didx_of_val : forall st i q, i_value i = q_value q ->
+    (k_indirect cfg = true -> b_didx st = didx_val c (q_value q)) -> didx_of cfg st i = didx_val c (q_value q).
+  Proof.
+    intros st i q Ev H. unfold didx_of, didx_val, k_indirect in *. cbn [block_cfg k_imap] in *.
+    destruct (index_map c); [rewrite Ev; reflexivity | apply H; reflexivity].
+  Qed.
+
+  Lemma imap_lookup_val : forall v, k_indirect cfg = true -> imap_lookup cfg v = didx_val c v.
+  Proof.
+    intros v H. unfold imap_lookup, didx_val, k_indirect in *. cbn [block_cfg k_imap] in *.
+    destruct (index_map c); [discriminate | reflexivity].
+  Qed.
+
+  Lemma lenq_pos : forall q, req_legal c q = true -> 1 <= lenq q.
+  Proof.
+    intros q Hl. unfold req_legal in Hl. apply andb_true_iff in Hl as [Hl _]. unfold lenq. lia.
+  Qed.
+
+  Lemma pw_facts : forall d : desc, nlen d <= max_desc_len c -> nlen d < 2 ^ pw.
+  Proof. intros d H. pose proof (N.size_gt (max_desc_len c)). lia. Qed.
+
+  (* one cycle in SEND_DESCRIPTOR *)
+  Lemma send_step : forall q i d B len pos sent dlen base didx rd bs f,
+    q_bounded q -> req_legal c q = true -> held q i = true -> fd q = Some d -> data_at B d ->
+    len = lenq q -> pos = q_sp q + sent -> pos < nlen d -> sent < lenq q -> dlen = nlen d -> base = B ->
+    rd = rom_read rom (B + pos / 4) ->
+    bs = firstn (N.to_nat (lenq q - sent)) (skipn (N.to_nat pos) d) -> f = (sent =? 0) ->
+    let st := {| b_fsm := B_SEND_DESCRIPTOR; b_len := len; b_pos := pos; b_sent := sent; b_dlen := dlen;
+                 b_base := base; b_didx := didx; b_rd := rd |} in
+    bk_out cfg st i = snd (send bs f q i) /\ rel (bk_next cfg st i) (fst (send bs f q i)).
+  Proof.
+    intros q i d B len pos sent dlen base didx rd bs f Hb Hleg HE Hfd Hda -> Hpos Hlt Hsl -> -> -> Hbs -> st. subst st.
+    destruct (held_fields _ _ HE) as (Ev & Ew & Esp & Est).
+    pose proof (len_next_held q i Hb Hleg Ew Esp) as Hln.
+    destruct Hda as (Hd16 & HB16 & Hdmax & Hbytes).
+    destruct rom_bounds as (Hrom & Haw & _).
+    destruct (Hbytes pos Hlt) as [Hin Hbyte].
+    assert (Hnat : (N.to_nat pos < length d)%nat) by (unfold nlen in Hlt; lia).
+    rewrite (firstn_skipn_cons d (N.to_nat (lenq q - sent)) (N.to_nat pos) ltac:(lia) Hnat) in Hbs.
+    set (rest := firstn (N.to_nat (lenq q - sent) - 1) (skipn (S (N.to_nat pos)) d)) in *.
+    set (ol := (nlen d =? pos + 1) || (lenq q <=? sent + 1)).
+    assert (Hlast : match rest with [] => true | _ :: _ => false end = ol).
+    { subst rest ol. rewrite firstn_skipn_last. unfold nlen in *.
+      destruct (Nat.eqb_spec (N.to_nat (lenq q - sent) - 1) 0), (Nat.leb_spec (length d) (S (N.to_nat pos))),
+               (N.eqb_spec (N.of_nat (length d)) (pos + 1)), (N.leb_spec (lenq q) (sent + 1)); cbn [orb]; try reflexivity; lia. }
+    subst bs. cbn [send]. rewrite Hlast.
+    split.
+    - (* outputs *)
+      cbn [snd]. unfold bk_out, on_first, on_last. cbn [b_fsm b_rd b_pos b_dlen b_len b_sent]. fold ol. f_equal.
+      + rewrite <- Hbyte. f_equal. rewrite bits_spec. change (2 ^ 0) with 1. change (2 ^ 2) with 4. rewrite N.div_1_r. reflexivity.
+      + rewrite Esp. destruct (N.eqb_spec pos (q_sp q)), (N.eqb_spec sent 0); try reflexivity; lia.
+    - (* next state *)
+      unfold bk_next, bk_addr, on_last. cbn [b_fsm b_dlen b_pos b_len b_sent b_base b_didx b_rd]. fold ol.
+      destruct (i_ready i) eqn:Er.
+      + destruct ol eqn:El.
+        * cbn [fst rel b_fsm]. reflexivity.
+        * (* advance *)
+          cbn [fst]. subst ol.
+          assert (Hp1 : pos + 1 < nlen d) by lia.
+          assert (Hs1 : sent + 1 < lenq q) by lia.
+          pose proof (pw_facts d Hdmax) as Hpw.
+          assert (Hpw2 : 2 <= pw) by (apply size_ge_2; lia).
+          cbn [rel]. exists q. split; [reflexivity|]. split; [exact Hb|]. split; [exact Hleg|].
+          cbn [b_len b_fsm]. split; [exact Hln|].
+          exists d, B, rest, false. cbn [sending b_pos b_sent b_dlen b_base b_rd block_cfg k_pw k_rom k_aw negb andb].
+          assert (Ep : trunc pw (pos + 1) = pos + 1) by (apply trunc_small; lia).
+          assert (Es1 : trunc 16 (sent + 1) = sent + 1).
+          { apply trunc_small. change (2 ^ 16) with 65536. unfold lenq in Hs1. lia. }
+          rewrite Ep, Es1.
+          split; [exact Hfd|]. split; [reflexivity|].
+          split; [exact (conj Hd16 (conj HB16 (conj Hdmax Hbytes)))|].
+          split; [lia|]. split; [exact Hp1|]. split; [exact Hs1|]. split; [reflexivity|]. split; [reflexivity|].
+          split.
+          { destruct (Hbytes (pos + 1) Hp1) as [Hin1 _].
+            rewrite bits_spec. change (2 ^ 2) with 4.
+            rewrite (N.mod_small ((pos + 1) / 4)) by (apply div4_lt; [exact Hpw2 | lia]).
+            rewrite trunc_small by lia. reflexivity. }
+          split.
+          { subst rest. f_equal; [lia|]. f_equal. lia. }
+          destruct (N.eqb_spec (sent + 1) 0); [lia | reflexivity].
+      + (* not accepted: hold *)
+        cbn [fst rel]. exists q. split; [reflexivity|]. split; [exact Hb|]. split; [exact Hleg|].
+        cbn [b_len b_fsm]. split; [exact Hln|].
+        exists d, B, (nth (N.to_nat pos) d 0 :: rest), (sent =? 0).
+        cbn [sending b_pos b_sent b_dlen b_base b_rd block_cfg k_pw k_rom k_aw andb].
+        split; [exact Hfd|]. split; [reflexivity|]. split; [exact (conj Hd16 (conj HB16 (conj Hdmax Hbytes)))|].
+        split; [exact Hpos|]. split; [exact Hlt|]. split; [exact Hsl|]. split; [reflexivity|]. split; [reflexivity|].
+        split.
+        { rewrite N.shiftr_div_pow2. change (2 ^ 2) with 4. rewrite trunc_small by lia. reflexivity. }
+        split; [|reflexivity].
+        rewrite (firstn_skipn_cons d (N.to_nat (lenq q - sent)) (N.to_nat pos) ltac:(lia) Hnat). reflexivity.
+  Qed.
+
+  Lemma resp_absent : forall q, fd q = None -> resp q = RStall.
+  Proof. intros q H. unfold resp_of, respond. unfold fd in H. rewrite H. reflexivity. Qed.
+
+  Lemma resp_present : forall q d, fd q = Some d ->
+    resp q = RData (firstn (N.to_nat (lenq q)) (skipn (N.to_nat (q_sp q)) d)).
+  Proof. intros q d H. unfold resp_of, respond. unfold fd in H. rewrite H. reflexivity. Qed.
+
+  Lemma legal_sp : forall q d, req_legal c q = true -> fd q = Some d -> q_sp q <= nlen d.
+  Proof.
+    intros q d Hl Hf. unfold req_legal in Hl. unfold fd in Hf. rewrite Hf in Hl.
+    apply andb_true_iff in Hl as [_ Hl]. lia.
+  Qed.
+
+  Lemma rel_step : forall st s i, rel st s -> s_env (req_legal c) s i = true ->
+    bk_out cfg st i = snd (s_step resp lat s i) /\ rel (bk_next cfg st i) (fst (s_step resp lat s i)).
+  Proof.
+    intros [f len pos sent dlen base didx rd] s i HR HE.
+    destruct rom_bounds as (Hrom & Haw & Hnt).
+    destruct s as [|k q|bs fl q].
+    - (* idle *)
+      cbn [rel b_fsm] in HR. subst f. cbn [s_env] in HE. cbn [s_step].
+      unfold bk_out, bk_next. cbn [b_fsm].
+      destruct (i_start i) eqn:Es.
+      + assert (Hk : (lat (req_of i) =? 0) = false).
+        { destruct (lat_cases (req_of i)) as [(_ & E & _)|[(_ & E & _)|(_ & E & _)]]; rewrite E; reflexivity. }
+        unfold wait. rewrite Hk. cbn [fst snd]. split; [reflexivity|].
+        cbn [rel]. exists (req_of i). split; [reflexivity|]. split; [apply req_of_bounded|]. split; [exact HE|].
+        cbn [b_len b_fsm b_sent].
+        split; [apply len_next_held; [apply req_of_bounded | exact HE | reflexivity | reflexivity]|].
+        split; reflexivity.
+      + cbn [fst snd rel b_fsm]. split; reflexivity.
+    - (* waiting for the answer to q *)
+      cbn [rel] in HR. destruct HR as (q' & Eq & Hb & Hleg & Hlen & HR).
+      cbn [req_of_state] in Eq. inversion Eq; subst q'. clear Eq.
+      cbn [s_env] in HE. destruct (held_fields _ _ HE) as (Ev & Ew & Esp & Est).
+      pose proof (len_next_held q i Hb Hleg Ew Esp) as Hln.
+      pose proof (lenq_pos q Hleg) as Hlq.
+      destruct Hb as (Hv16 & Hw16 & Hs11). assert (Hb : q_bounded q) by (repeat split; assumption).
+      cbn [b_fsm b_len b_sent b_pos b_rd b_didx b_dlen b_base wait_k] in HR, Hlen. subst len.
+      cbn [s_step]. unfold wait.
+      destruct f.
+      + contradiction.
+      + (* START *)
+        destruct HR as (-> & Hk). inversion Hk; subst k. clear Hk.
+        unfold bk_out, bk_next. cbn [b_fsm block_cfg k_maxtype k_pw k_rom]. rewrite Ev.
+        destruct (lat_cases q) as [(Ht & El & Ef)|[(Ht & El & Ef)|(Ht & El & d & Ef)]]; rewrite El.
+        * (* type beyond the table: stall now *)
+          cbn [N.sub N.eqb Pos.sub]. change (1 - 1 =? 0) with true. cbv iota.
+          unfold deliver. rewrite (resp_absent q Ef). cbn [fst snd].
+          destruct (N.leb_spec (v_type (q_value q)) (max_type c)); [lia|]. split; [reflexivity|]. reflexivity.
+        * change (2 - 1 =? 0) with false. cbv iota. cbn [fst snd].
+          destruct (N.leb_spec (v_type (q_value q)) (max_type c)); [|lia]. split; [reflexivity|].
+          cbn [rel]. exists q. split; [reflexivity|]. split; [exact Hb|]. split; [exact Hleg|].
+          cbn [b_len b_fsm b_sent b_pos b_rd b_didx wait_k]. split; [exact Hln|].
+          split; [reflexivity|]. split; [intros d Hd; congruence|]. split; [exact H|].
+          split; [rewrite El; reflexivity|]. split.
+          { unfold bk_addr. cbn [b_fsm block_cfg k_aw]. rewrite Ev. apply rom_read_trunc. unfold ntypes in Hnt. lia. }
+          intro Hind. rewrite Hind. apply imap_lookup_val. exact Hind.
+        * change (4 - 1 =? 0) with false. cbv iota. cbn [fst snd].
+          destruct (N.leb_spec (v_type (q_value q)) (max_type c)); [|lia]. split; [reflexivity|].
+          cbn [rel]. exists q. split; [reflexivity|]. split; [exact Hb|]. split; [exact Hleg|].
+          cbn [b_len b_fsm b_sent b_pos b_rd b_didx wait_k]. split; [exact Hln|].
+          split; [reflexivity|]. split.
+          { intros d' Hd'. rewrite Esp. apply trunc_small.
+            destruct (walk_present c (q_value q) d' F Hv16 Hd') as (n & A & B & _ & _ & _ & _ & _ & _ & _ & _ & _ & Hmax & _).
+            pose proof (legal_sp q d' Hleg Hd'). pose proof (pw_facts d' Hmax). lia. }
+          split; [exact H|]. split; [rewrite El; reflexivity|]. split.
+          { unfold bk_addr. cbn [b_fsm block_cfg k_aw]. rewrite Ev. apply rom_read_trunc. unfold ntypes in Hnt. lia. }
+          intro Hind. rewrite Hind. apply imap_lookup_val. exact Hind.
+      + (* LOOKUP_TYPE *)
+        destruct HR as (-> & Hpos & Ht & Hk & -> & Hdidx). inversion Hk; subst k. clear Hk.
+        pose proof (didx_of_val {| b_fsm := B_LOOKUP_TYPE; b_len := lenq q; b_pos := pos; b_sent := 0; b_dlen := dlen;
+                                   b_base := base; b_didx := didx; b_rd := rom_read rom (v_type (q_value q)) |} i q Ev Hdidx) as Hdv.
+        unfold bk_out, bk_next, bk_addr. cbn [b_fsm b_rd b_len block_cfg k_rom k_aw]. rewrite Hdv.
+        destruct (lat_cases q) as [(Ht' & El & Ef)|[(_ & El & Ef)|(_ & El & d & Ef)]]; [lia | |]; rewrite El.
+        * (* absent: stall now *)
+          change (2 - 2 =? 0) with true. cbv iota. unfold deliver. rewrite (resp_absent q Ef). cbn [fst snd].
+          pose proof (walk_absent c (q_value q) F Hv16 Ht Ef) as Hwa.
+          destruct (N.leb_spec (e_hi (rom_read rom (v_type (q_value q)))) (didx_val c (q_value q))); [|lia].
+          split; reflexivity.
+        * change (4 - 2 =? 0) with false. cbv iota. cbn [fst snd].
+          destruct (walk_present c (q_value q) d F Hv16 Ef) as (n & A & B & _ & Hr1 & Hn & HA & Hdn & HAd & Hr2 & Hd16 & HB & Hmax & Hbytes).
+          rewrite Hr1. rewrite (e_hi_entry n (4 * A)) by lia.
+          destruct (N.leb_spec n (didx_val c (q_value q))); [lia|].
+          destruct (N.eqb_spec (lenq q) 0); [lia|].
+          split; [reflexivity|].
+          cbn [rel]. exists q. split; [reflexivity|]. split; [exact Hb|]. split; [exact Hleg|].
+          cbn [b_len b_fsm b_sent b_pos b_rd wait_k]. split; [exact Hln|].
+          exists d, B. split; [exact Ef|]. split; [reflexivity|]. split; [reflexivity|]. split; [exact (Hpos d Ef)|].
+          split.
+          { rewrite (ptr_entry n A aw) by lia. rewrite trunc_small by lia. exact Hr2. }
+          exact (conj Hd16 (conj HB (conj Hmax Hbytes))).
+      + (* LOOKUP_DESCRIPTOR *)
+        destruct HR as (d & B & Ef & Hk & -> & -> & -> & Hda). inversion Hk; subst k. clear Hk.
+        change (1 =? 0) with false. cbv iota. cbn [fst snd].
+        destruct Hda as (Hd16 & HB16 & Hdmax & Hbytes).
+        unfold bk_out, bk_next, bk_addr. cbn [b_fsm b_rd b_pos block_cfg k_rom k_aw]. split; [reflexivity|].
+        rewrite (e_hi_entry (nlen d) (4 * B)) by lia.
+        destruct (N.leb_spec (nlen d) (q_sp q)) as [Hz|Hz].
+        * cbn [rel]. exists q. split; [reflexivity|]. split; [exact Hb|]. split; [exact Hleg|].
+          cbn [b_len b_fsm wait_k]. split; [exact Hln|]. exists d. repeat split; assumption.
+        * destruct (Hbytes (q_sp q) Hz) as [Hin _].
+          assert (Hnat : (N.to_nat (q_sp q) < length d)%nat) by (unfold nlen in Hz; lia).
+          cbn [rel]. exists q. split; [reflexivity|]. split; [exact Hb|]. split; [exact Hleg|].
+          cbn [b_len b_fsm]. split; [exact Hln|].
+          exists d, B, (firstn (N.to_nat (lenq q)) (skipn (N.to_nat (q_sp q)) d)), true.
+          cbn [b_pos b_sent b_dlen b_base b_rd].
+          split; [exact Ef|]. split.
+          { cbn [sending]. rewrite (resp_present q d Ef).
+            rewrite (firstn_skipn_cons d (N.to_nat (lenq q)) (N.to_nat (q_sp q)) ltac:(lia) Hnat). reflexivity. }
+          split; [exact (conj Hd16 (conj HB16 (conj Hdmax Hbytes)))|].
+          split; [lia|]. split; [exact Hz|]. split; [lia|]. split; [reflexivity|].
+          split; [apply ptr_entry; lia|].
+          split; [rewrite lookup_addr by lia; reflexivity|].
+          split; [rewrite N.sub_0_r; reflexivity | reflexivity].
+      + (* SEND_DESCRIPTOR, first cycle of the answer *)
+        destruct HR as (d & B & bs & fl & Ef & Hs & Hda & Hp & Hlt & Hsl & Hdl & Hbase & Hrd & Hbs & Hfl).
+        cbn [sending] in Hs. destruct k as [|kp]; [|discriminate].
+        change (0 =? 0) with true. cbv iota. unfold deliver.
+        destruct (resp q) as [|[|b0 bs0]] eqn:Er; try discriminate. inversion Hs; subst bs fl. clear Hs.
+        apply (send_step q i d B (lenq q) pos sent dlen base didx rd (b0 :: bs0) true); try assumption; reflexivity.
+      + (* SEND_ZLP *)
+        destruct HR as (d & Ef & Hk & Hz). inversion Hk; subst k. clear Hk.
+        change (0 =? 0) with true. cbv iota. unfold deliver. rewrite (resp_present q d Ef).
+        rewrite skipn_all2 by (unfold nlen in Hz; lia). rewrite firstn_nil. cbn [fst snd].
+        unfold bk_out, bk_next. cbn [b_fsm]. split; reflexivity.
+    - (* sending *)
+      cbn [rel] in HR. destruct HR as (q' & Eq & Hb & Hleg & Hlen & HR).
+      cbn [req_of_state] in Eq. inversion Eq; subst q'. clear Eq.
+      cbn [s_env] in HE. cbn [b_fsm b_len b_sent b_pos b_rd b_didx b_dlen b_base wait_k] in HR, Hlen.
+      cbn [s_step].
+      destruct f; try contradiction;
+        try (destruct HR as (_ & Hk); discriminate);
+        try (destruct HR as (_ & _ & _ & Hk & _); discriminate);
+        try (destruct HR as (? & ? & _ & Hk & _); discriminate);
+        try (destruct HR as (? & _ & Hk & _); discriminate).
+      destruct HR as (d & B & bs' & fl' & Ef & Hs & Hda & Hp & Hlt & Hsl & Hdl & Hbase & Hrd & Hbs & Hfl).
+      cbn [sending] in Hs. injection Hs as -> ->.
+      apply (send_step q i d B len pos sent dlen base didx rd bs' fl'); assumption.
+  Qed.
+
+  Theorem block_refines_from : forall tr st s, rel st s ->
+    env_ok sstate (s_step resp lat) (s_env (req_legal c)) s tr = true ->
+    run (bk_step cfg) st tr = run (s_step resp lat) s tr.
+  Proof.
+    induction tr as [|i t IH]; intros st s HR HE; [reflexivity|].
+    cbn [env_ok] in HE. apply andb_true_iff in HE as [HE1 HE2].
+    destruct (rel_step st s i HR HE1) as [Ho Hn].
+    cbn [run bk_step]. destruct (s_step resp lat s i) as [s' o] eqn:Es. cbn [fst snd] in *.
+    rewrite Ho. f_equal. apply IH; assumption.
+  Qed.
+End Refine.
+
+(* The block-ROM handler, configured from any well-formed collection, answers every legal request sequence exactly
+   as the specification machine does. *)
+Theorem block_refines : forall c mps, coll_okb c = true -> 1 <= mps /\ mps < 65536 -> forall tr,
+  env_ok sstate (s_step (resp_of c mps) (bk_lat c)) (s_env (req_legal c)) SIdle tr = true ->
+  run (bk_step (block_cfg c mps)) bk_init tr = run (s_step (resp_of c mps) (bk_lat c)) SIdle tr.
+Proof.
+  intros c mps Hc Hm tr HE. apply (block_refines_from c mps (coll_ok_facts c Hc) Hm); [reflexivity | exact HE].
+Qed.
